@@ -35,7 +35,8 @@ def check_wait_table(result_ready: bool, wakeup_ready: bool, sent: List[bool], k
 
     reader = NS(recv=recv)
     wake = FakeWakeup(log)
-    fake = NS(result_queue=NS(_reader=reader), thread_wakeup=wake, processes=procs)
+    fake = NS(result_queue=NS(_reader=reader), thread_wakeup=wake, processes=procs,
+              shutdown_lock=FakeLock(log, "shutdown_lock"))
 
     def wait(objs):
         if objs[:2] != [reader, wake._reader] or sorted(objs[2:]) != sorted(p.sentinel for p in procs.values()):
@@ -312,3 +313,60 @@ def check_shutdown_call(wait: bool, kill: bool, started: bool) -> bool:
     if started and wait:
         return joined == [(True, 1)] and left == {}
     return joined == []
+
+
+class _Livelock(Exception):
+    pass
+
+
+def check_shutdown_workers_small_queue(announced: List[bool], cap: int) -> bool:
+    """
+    pre: 1 <= len(announced) <= 3 and 1 <= cap <= 2
+    post: _
+    """
+    # More sentinels than free call-queue slots. Workers that already announced their own exit (idle time-out)
+    # sit on their exit lock and never read the queue; idle workers take one sentinel each. The environment makes
+    # progress inside sleep(); if nothing can change any more and the loop keeps sleeping, that is a livelock
+    # (the real code would give up after ~26 s by re-raising queue.Full in the manager thread).
+    import queue as _q
+    cap = _conc(cap, 2)
+    n = len(announced)
+    log = Log()
+    fake, futs, procs, flags, cq, mgmt = _mk_manager(log, 0, n)
+    plist = list(procs.values())
+    for p, a in zip(plist, announced):
+        p.announced = bool(a)
+        p.is_alive = (lambda p=p: (p._worker_exit_lock.held if p.announced else p.alive))
+    items = []
+
+    def put_nowait(obj):
+        if len(items) >= cap:
+            log.add("cq-full")
+            raise _q.Full()
+        items.append(obj)
+        log.add("cq-put", obj)
+    cq.put_nowait = put_nowait
+    idle = [0]
+
+    def sleep(dt):
+        for p in plist:
+            if not p.announced and p.alive and items:
+                items.pop()
+                p.alive = False  # took its sentinel and left
+                idle[0] = 0
+                return
+        idle[0] += 1
+        if idle[0] > 4:
+            raise _Livelock()
+    saved = pe.sleep
+    pe.sleep = sleep
+    try:
+        try:
+            MT.shutdown_workers(fake)
+        except _Livelock:
+            return False  # stuck: queue full, nobody will ever take a sentinel, the loop spins until it gives up
+        except _q.Full:
+            return False
+    finally:
+        pe.sleep = saved
+    return all(not p._worker_exit_lock.held for p in plist) and not mgmt.held
